@@ -198,10 +198,10 @@ let handle (line : string) : string =
     let p = parse_fen f.(1) in
     let mask = n_of_string f.(2) in
     let sqset us = List.fold_left (fun acc i -> if is_sq_attacked p (n_of_int i) us then Int64.logor acc (Int64.shift_left 1L i) else acc) 0L (List.init 64 (fun i -> i)) in
-    Printf.sprintf "sq_us=%Lu sq_them=%Lu bb_us=%s bb_them=%s ga_us=%s ga_them=%s chk=%s chkthem=%s"
+    Printf.sprintf "sq_us=%Lu sq_them=%Lu bb_us=%s bb_them=%s ga_us=%s ga_them=%s chk=%s chkthem=%s apre=%s"
       (sqset true) (sqset false) (b01 (is_bb_attacked p mask true)) (b01 (is_bb_attacked p mask false))
       (string_of_n (get_attacked p mask true)) (string_of_n (get_attacked p mask false))
-      (b01 (in_check p)) (b01 (in_check_them p))
+      (b01 (in_check p)) (b01 (in_check_them p)) (b01 (attack_pre_b p))
   | "make" ->
     let p = parse_fen f.(1) in
     if f.(2) = "null" then
@@ -304,7 +304,7 @@ let handle (line : string) : string =
   | "specatt" ->
     let p = parse_fen f.(1) in
     let sqset us = List.fold_left (fun acc i -> if spec_attacked p (n_of_int i) us then Int64.logor acc (Int64.shift_left 1L i) else acc) 0L (List.init 64 (fun i -> i)) in
-    Printf.sprintf "sq_us=%Lu sq_them=%Lu" (sqset true) (sqset false)
+    Printf.sprintf "sq_us=%Lu sq_them=%Lu apre=%s" (sqset true) (sqset false) (b01 (attack_pre_b p))
   | "leaves" ->
     let p = parse_fen f.(1) in
     string_of_z (leaves (nat_of_int (int_of_string f.(2))) (abs_state p))
